@@ -43,7 +43,7 @@ pub fn parallel<T: Send + 'static, R: Send + 'static>(jobs: Vec<T>, nthreads: us
 }
 
 pub fn nworkers() -> usize {
-    std::env::var("BSSIM_WORKERS").ok().and_then(|s| s.parse().ok()).unwrap_or(16)
+    std::env::var("BSSIM_WORKERS").ok().and_then(|s| s.parse().ok()).unwrap_or(8)
 }
 
 /// Run one worker process (fresh namespace) with a wall-clock backstop.
@@ -77,7 +77,6 @@ pub fn run_worker(spec: &WorkerSpec, timeout: Duration) -> WorkerResult {
         let _ = e.read_to_string(&mut stderr);
     }
     let res = std::fs::read_to_string(&spec.out).ok().and_then(|s| serde_json::from_str::<WorkerResult>(&s).ok());
-    let _ = std::fs::remove_file(&spec_path);
     let _ = std::fs::remove_file(&spec.out);
     match (status, res) {
         (None, r) => {
@@ -184,6 +183,7 @@ pub fn build_corpus(specs: Vec<ProgramSpec>, need_trace: bool) -> Corpus {
 pub struct RunRecord {
     pub spec: WorkerSpec,
     pub res: WorkerResult,
+    pub wall_ms: u64,
 }
 
 fn own_violations<'a>(prop: &str, r: &'a WorkerResult) -> Vec<&'a Violation> {
@@ -355,8 +355,9 @@ pub fn run_check(cfg: CheckCfg, specs: Vec<WorkerSpec>, corpus_info: Value) -> i
     let timeout = cfg.timeout;
     let total = specs.len();
     let results: Vec<RunRecord> = parallel(specs, nworkers(), move |s| {
+        let t = Instant::now();
         let r = run_worker(&s, timeout);
-        RunRecord { spec: s, res: r }
+        RunRecord { spec: s, res: r, wall_ms: t.elapsed().as_millis() as u64 }
     });
     let t_runs = t0.elapsed().as_secs_f64();
     // determinism: re-run a sample, logs must be identical
@@ -428,6 +429,11 @@ pub fn run_check(cfg: CheckCfg, specs: Vec<WorkerSpec>, corpus_info: Value) -> i
                 *foreign.entry(format!("{}:{}", v.property, v.invariant)).or_default() += 1;
             }
         }
+    }
+    {
+        // per-run summary for debugging (scratch, not evidence)
+        let rows: Vec<Value> = results.iter().map(|r| json!({"run": r.spec.run_idx, "seed": r.spec.seed, "verdict": r.res.verdict, "detail": r.res.detail, "violations": r.res.violations.iter().map(|v| format!("{}:{}", v.property, v.invariant)).collect::<Vec<_>>(), "ops": r.res.ops, "wall_ms": r.wall_ms})).collect();
+        let _ = std::fs::write(scratch_dir(&prop).join("summary.json"), serde_json::to_string_pretty(&rows).unwrap());
     }
     let known = load_known();
     let mut exit = 0;
